@@ -74,6 +74,9 @@ class Real:
         self.seq = 0
         self.cls = None
         self.obj = None
+        self.prior = None
+        self.prior_state = None
+        self.serial = 0
         # a oneway call of a non-callable dies inside its thread (by design nothing is reported to the client); keep stderr clean
         self._excepthook = threading.excepthook
         threading.excepthook = lambda args: None
@@ -146,27 +149,53 @@ class Real:
             return self._val(m["v"])
         raise ValueError(k)
 
-    def build(self, shape):
-        """returns None, or the name of the exception the decorators raised"""
+    def _materialise(self, shape, names):
+        cls = None
+        classes = []
+        for i, c in reversed(list(enumerate(shape["classes"]))):
+            ns = {}
+            for key, m in c["members"]:
+                ns[key] = self._member(m)
+            cls = type(names[i], (cls,) if cls else (), ns)
+            if c["expose"]:
+                cls = self.server.expose(cls)
+            classes.insert(0, cls)
+        if cls is None:
+            cls = type(names[0], (), {})
+            classes = [cls]
+        obj = cls()
+        for key, v in shape["inst"]:
+            obj.__dict__[key] = self._val(v)
+        return cls, obj, classes
+
+    def build(self, shape, prior=None):
+        """materialise + register the shape; returns None, or the kind of exception the decorators raised.
+        Class names (module, __qualname__) are unique per call.  `prior` = {"shape": .., "keep": bool}: a DIFFERENT object whose
+        classes have the SAME module and qualified names, registered earlier in the same daemon, its metadata fetched (so whatever
+        the daemon caches per class is filled by it), then unregistered unless keep."""
         self.drop()
+        self.serial += 1
+        n = max(len(shape["classes"]), len(prior["shape"]["classes"]) if prior else 0, 1)
+        names = ["T%d_%d" % (self.serial, i) for i in range(n)]
+        self.prior_state = None
+        if prior:
+            try:
+                pcls, pobj, pclasses = self._materialise(prior["shape"], names)
+            except AttributeError:
+                self.prior_state = "refused"
+            else:
+                self.prior = (pcls, pobj, pclasses)
+                self.daemon.register(pobj, "c02prior")
+                self.prior_md = self.metadata("c02prior")
+                self.prior_state = "kept" if prior.get("keep") else "gone"
+                if not prior.get("keep"):
+                    self.daemon.unregister("c02prior")
+            del self.log[:]
         try:
-            cls = None
-            classes = []
-            for i, c in reversed(list(enumerate(shape["classes"]))):
-                ns = {}
-                for key, m in c["members"]:
-                    ns[key] = self._member(m)
-                cls = type("Target%d" % i, (cls,) if cls else (), ns)
-                if c["expose"]:
-                    cls = self.server.expose(cls)
-                classes.insert(0, cls)
-            if cls is None:
-                cls = type("Target", (), {})
-            obj = cls()
-            for key, v in shape["inst"]:
-                obj.__dict__[key] = self._val(v)
+            cls, obj, classes = self._materialise(shape, names)
         except AttributeError as x:
             del self.log[:]
+            self._drop_prior()
             return "priv" if str(x).startswith("exposing private names") else "attr"
         del self.log[:]
         self.cls, self.obj, self.classes = cls, obj, classes
@@ -196,12 +225,23 @@ class Real:
             del self.log[:]
         return "step"
 
+    def _drop_prior(self):
+        if self.prior is not None:
+            pcls, pobj, _ = self.prior
+            if "c02prior" in self.daemon.objectsById:
+                self.daemon.unregister("c02prior")
+            for c in pcls.__mro__:
+                self.server._reset_exposed_members(c)
+            self.prior = None
+
     def drop(self):
+        """forget the case (the caches are emptied only here, when a whole case — prior object, object, history — is over)"""
         if self.obj is not None:
             self.daemon.unregister("c02target")
             for c in self.cls.__mro__:
                 self.server._reset_exposed_members(c)
             self.cls = self.obj = None
+        self._drop_prior()
 
     # ---------------------------------------------------------------- raw requests
     def _pyname(self, n):
@@ -271,12 +311,12 @@ class Real:
             return "error:index"
         return "error:other:" + type(value).__name__
 
-    def metadata(self):
+    def metadata(self, oid="c02target"):
         """DaemonObject.get_metadata through a raw INVOKE on the daemon's own object"""
         from Pyro5 import core
         with warnings.catch_warnings():
             warnings.simplefilter("ignore")
-            kind, value = self.raw(core.DAEMON_NAME, 0, "get_metadata", ["c02target"])
+            kind, value = self.raw(core.DAEMON_NAME, 0, "get_metadata", [oid])
         if kind != "result":
             raise RuntimeError("get_metadata failed: %r %r" % (kind, value))
         return {k: sorted(value[k]) for k in ("methods", "oneway", "attrs")}
